@@ -118,7 +118,8 @@ def grad_case(case):
     with np.errstate(all="ignore"):
         s0, G = g(P.copy(), Aff, return_grad=True)
         s1 = g(P.copy(), Aff)
-    G = np.asarray(G)
+    G_returned = G                      # the very object handed back: it belongs to the caller from now on
+    G = np.array(G, dtype=float, copy=True)
     if np.shape(G) != P.shape:
         return {"v": [violation("grad_shape", f"gradient shape {np.shape(G)} for predictions {P.shape}", **where)]}
     if not (np.isfinite(G).all() and np.isfinite(s0)):
@@ -196,6 +197,19 @@ def grad_case(case):
         s_again, G_again = g(P.copy(), Aff, return_grad=True)
     if not (float(s_again) == float(s0) and np.array_equal(np.asarray(G_again), G)):
         v.append(violation("answer_depends_on_what_the_object_saw_before", {"P": P, "first": G, "after_other_evaluations": G_again}, **where))
+    # ... and the array returned by the FIRST call is still that gradient, after all the later evaluations of this object and after another object
+    # of the same class has evaluated a gradient of the same shape (no buffer shared between calls or objects)
+    with np.errstate(all="ignore"):
+        g_other = _gemini(target, kw, epsilon)
+        g_other(softmax(Z[::-1] * 0.7 + 0.1), Aff, return_grad=True)
+    if np.shape(G_returned) != G.shape or not np.array_equal(np.asarray(G_returned, dtype=float), G):
+        v.append(violation("returned_gradient_overwritten_by_later_evaluations", {"P": P, "returned_then": G, "same_array_now": np.asarray(G_returned)}, **where))
+    # the memory layout of the predictions is not part of the point: Fortran-ordered predictions get the same score and gradient
+    if n > 1 and K > 1:
+        with np.errstate(all="ignore"):
+            sF, GF = g(np.asfortranarray(P), Aff, return_grad=True)
+        if not (abs(float(sF) - float(s0)) <= 1e-12 * max(unit, abs(float(s0))) and np.allclose(np.asarray(GF, dtype=float), G, rtol=1e-9, atol=1e-12 * max(unit, np.abs(G).max()))):
+            v.append(violation("gradient_depends_on_memory_layout", {"P": P, "c_order": G, "fortran_order": np.asarray(GF)}, **where))
     region = _regions(g, P, Aff, dist, ovo)
     return {"v": v[:6], "nt": [case] if differentiable and scale > 1e-9 * unit else [],
             "out": [(cls, ovo, K, n, region)], "stats": {"evals": 1, "differentiable": ndiff, "kinks": 1 - ndiff},
